@@ -365,6 +365,18 @@ class _HostReconnectionHandler(_ReconnectionHandler):
             return True
 
 
+def _set_keyspace_or_close(conn, keyspace):
+    """
+    Issues USE on a connection a pool has just opened.  If that fails the connection is not
+    going to be part of the pool, so it is closed here (a rejected USE leaves it open).
+    """
+    try:
+        conn.set_keyspace_blocking(keyspace)
+    except Exception:
+        conn.close()
+        raise
+
+
 class HostConnection(object):
     """
     When using v3 of the native protocol, this is used instead of a connection
@@ -406,7 +418,7 @@ class HostConnection(object):
         self._connection = session.cluster.connection_factory(host.endpoint, on_orphaned_stream_released=self.on_orphaned_stream_released)
         self._keyspace = session.keyspace
         if self._keyspace:
-            self._connection.set_keyspace_blocking(self._keyspace)
+            _set_keyspace_or_close(self._connection, self._keyspace)
         log.debug("Finished initializing connection for host %s", self.host)
 
     def _get_connection(self):
@@ -516,7 +528,7 @@ class HostConnection(object):
         try:
             conn = self._session.cluster.connection_factory(self.host.endpoint, on_orphaned_stream_released=self.on_orphaned_stream_released)
             if self._keyspace:
-                conn.set_keyspace_blocking(self._keyspace)
+                _set_keyspace_or_close(conn, self._keyspace)
             self._connection = conn
         except Exception:
             log.warning("Failed reconnecting %s. Retrying." % (self.host.endpoint,))
@@ -629,8 +641,13 @@ class HostConnectionPool(object):
 
         self._keyspace = session.keyspace
         if self._keyspace:
-            for conn in self._connections:
-                conn.set_keyspace_blocking(self._keyspace)
+            try:
+                for conn in self._connections:
+                    conn.set_keyspace_blocking(self._keyspace)
+            except Exception:
+                for conn in self._connections:
+                    conn.close()
+                raise
 
         self._trash = set()
         self._next_trash_allowed_at = time.time()
@@ -730,7 +747,7 @@ class HostConnectionPool(object):
         try:
             conn = self._session.cluster.connection_factory(self.host.endpoint, on_orphaned_stream_released=self.on_orphaned_stream_released)
             if self._keyspace:
-                conn.set_keyspace_blocking(self._session.keyspace)
+                _set_keyspace_or_close(conn, self._session.keyspace)
             self._next_trash_allowed_at = time.time() + _MIN_TRASH_INTERVAL
             with self._lock:
                 shut_down = self.is_shutdown
